@@ -501,10 +501,18 @@ def rule_n5(ck, prog, S):
                 bad = bad or (look[0], "the unit lookup is reached for token classes %s, not only for a number with suffix" % sorted(tset))
                 continue
             a = C.call_args(look[0])
-            sp, sl = (a[1].strip_all_casts().get("path") or ""), (a[2].strip_all_casts().get("path") or "")
-            tok = sp[:-len(".ptr")] if sp.endswith(".ptr") else None
-            if tok is None or sl != tok + ".len":
-                bad = bad or (look[0], "the text handed to the unit lookup is (`%s`, `%s`), not a token the lexer produced" % (a[1].src, a[2].src))
+            paths_ = [(x.strip_all_casts().get("path") or "") for x in a]
+            tok = None
+            for sp in paths_:
+                # the suffix as (token.ptr, token.len) or as the token itself
+                if sp.endswith(".ptr") and sp[:-len(".ptr")] + ".len" in paths_:
+                    tok = sp[:-len(".ptr")]
+                elif sp.startswith("&") and any(len(C.call_args(c)) >= 2 and (C.call_args(c)[1].strip_all_casts().get("path") or "") == sp and
+                                                (c.get("callee") or "").startswith("scpiLex_") for c in ps.calls):
+                    tok = sp[1:]
+            if tok is None:
+                bad = bad or (look[0], "the text handed to the unit lookup (`%s`) is not a token the lexer produced"
+                              % ", ".join(x.src for x in a[1:-1]))
                 continue
             before = ps.calls[:ps.calls.index(look[0])]
             fills = [c for c in before if len(C.call_args(c)) >= 2 and (C.call_args(c)[1].strip_all_casts().get("path") or "") == "&" + tok]
